@@ -242,7 +242,11 @@ fn x86_plain(rng: &mut Rng, m64: bool) -> Vec<u8> {
                 v
             }
         }
-        _ => x86_rr(m64, w, &[0x87], s, d),
+        _ => {
+            // xchg writes both operands: neither may be the base, stack or jump register
+            let d2 = x86_dst(rng, m64);
+            x86_rr(m64, w, &[0x87], d2, d)
+        }
     }
 }
 fn x86_branch(rng: &mut Rng, target: usize, m64: bool) -> Item {
@@ -731,7 +735,8 @@ fn gen_program(rng: &mut Rng, arch: &'static str, thorough: bool, tr: &dyn Trans
             tags.insert("manual");
         }
     }
-    if rng.chance(1, 8) {
+    // (on ppc the jump register is ctr, which programs without indirect jumps write and count down: no decoys there)
+    if rng.chance(1, 8) && (arch != "ppc" || use_indirect) {
         // a never-taken manual edge between arbitrary instructions: only splits blocks
         let h = pick_nonslot(rng, &items);
         let t = pick_nonslot(rng, &items);
